@@ -61,6 +61,12 @@ func (db *DB) Merge() error {
 	mergePath := db.mergePath()
 	// 如果存在上次 merge 的残留目录, 将其删除
 	if _, err := os.Stat(mergePath); err == nil {
+		// 先删除 merge 完成标识: 目录的删除不是原子操作, 若残留目录是一次已完成但尚未加载的 merge,
+		// 删除中途崩溃而标识仍在时, 下次启动会把只剩部分文件的目录当作已完成的 merge 加载, 造成数据错乱
+		finName := datafile.GetFileName(mergePath, 0, datafile.MergeFinishedFileSuffix)
+		if err := os.Remove(finName); err != nil && !os.IsNotExist(err) {
+			return err
+		}
 		if err := os.RemoveAll(mergePath); err != nil {
 			return err
 		}
